@@ -6,6 +6,7 @@ Import ListNotations.
 From Snaps Require Import Base.Bytes Base.Assoc.
 From Snaps Require Import Model.Frame Model.PathModel Model.Mode Model.Api Model.Natural Model.Clean Model.RunFilter.
 From Snaps Require Import Proofs.FrameP Proofs.CleanP Proofs.CleanEntriesP Proofs.TestIdP Proofs.RunFilterP Proofs.CleanFilesP.
+From Snaps Require Import Proofs.CleanRunP.
 
 (* COMPLETE AND EXACT REPORT. For a well-formed addressed file with distinct recognised ids, in every
    mode: the entries reported obsolete are exactly those that are neither registered (addressed in this
@@ -191,3 +192,52 @@ Theorem C09_reachable_keys_unique : forall e caller dir ops,
   NoDup (map fst (s_fs (fst (run (init_state e caller dir) ops)))).
 Proof. exact reachable_keys_nodup. Qed.
 Print Assumptions C09_reachable_keys_unique.
+
+(* ---------- the ENTRY level for a whole Clean run ---------- *)
+
+(* completeness: every entry of an addressed well-formed file that is neither registered nor skip-protected IS reported *)
+Theorem C09_run_stale_entries_reported : forall s sort_opt count p es,
+  NoDup (map fst (s_fs s)) ->
+  In p (fr_used (run_files s count)) ->
+  alookup p (s_fs s) = Some (render (map to_entry es)) ->
+  Forall centry_ok es -> NoDup (map fst es) ->
+  forall e, In e es -> mem_bytes (fst e) (run_reg s count p) = false -> test_skipped (s_skipped s) (fst e) = false ->
+  In (fst e) (cr_obsolete_tests (snd (clean_run s sort_opt count))).
+Proof. exact run_stale_entries_reported. Qed.
+(* exactness: nothing else of that file is reported *)
+Theorem C09_run_reported_entries_stale : forall s sort_opt count p es,
+  alookup p (s_fs s) = Some (render (map to_entry es)) -> Forall centry_ok es -> NoDup (map fst es) ->
+  forall id, In id (file_report s sort_opt count p) ->
+  exists e, In e es /\ fst e = id /\ mem_bytes id (run_reg s count p) = false /\ test_skipped (s_skipped s) id = false.
+Proof. exact run_reported_entries_stale. Qed.
+Print Assumptions C09_run_stale_entries_reported.
+Print Assumptions C09_run_reported_entries_stale.
+
+(* in every mode that does not delete, the file keeps every entry (sorting may only reorder; untouched if no sorting is due) *)
+Theorem C09_run_report_only_keeps_entries : forall s sort_opt count p es,
+  NoDup (map fst (s_fs s)) ->
+  In p (fr_used (run_files s count)) ->
+  alookup p (s_fs s) = Some (render (map to_entry es)) ->
+  Forall centry_ok es -> NoDup (map fst es) ->
+  clean_deletes (s_env s) = false ->
+  alookup p (s_fs (fst (clean_run s sort_opt count))) = Some (render (map to_entry (run_entries s sort_opt count p es))) /\
+  Permutation (run_entries s sort_opt count p es) es /\
+  (clean_sorts (s_env s) sort_opt = false \/ is_sorted_nat (map fst es) = true ->
+   run_entries s sort_opt count p es = es /\ ~ In (WRewrite, p) (cr_writes (snd (clean_run s sort_opt count)))).
+Proof. exact run_report_only_keeps_entries. Qed.
+Print Assumptions C09_run_report_only_keeps_entries.
+
+(* off CI with UPDATE_SNAPS true/clean exactly the reported entries are gone *)
+Theorem C09_run_delete_mode_removes_reported : forall s sort_opt count p es,
+  NoDup (map fst (s_fs s)) ->
+  In p (fr_used (run_files s count)) ->
+  alookup p (s_fs s) = Some (render (map to_entry es)) ->
+  Forall centry_ok es -> NoDup (map fst es) ->
+  clean_deletes (s_env s) = true ->
+  alookup p (s_fs (fst (clean_run s sort_opt count))) = Some (render (map to_entry (run_entries s sort_opt count p es))) /\
+  Permutation (run_entries s sort_opt count p es) (filter (kept (run_reg s count p) (s_skipped s)) es) /\
+  (forall e, In e (run_entries s sort_opt count p es) <-> In e es /\ ~ In (fst e) (file_report s sort_opt count p)) /\
+  (clean_sorts (s_env s) sort_opt = false \/ is_sorted_nat (map fst es) = true ->
+   run_entries s sort_opt count p es = filter (kept (run_reg s count p) (s_skipped s)) es).
+Proof. exact run_delete_mode_removes_reported. Qed.
+Print Assumptions C09_run_delete_mode_removes_reported.
